@@ -79,7 +79,7 @@ for mk, marker in [("nul", b"\x00"), ("ab", b"ab"), ("aab", b"aab")]:
             nm = "s_mark_%s_%s_%s" % (mk, "inc" if inc else "exc", "x" if sbl is None else sbl)
             lq = 5 if len(marker) == 1 else 6
             add(nm, sent("SMark%s%s%s" % (mk.capitalize(), "I" if inc else "E", "x" if sbl is None else sbl),
-                         [("d", Data(until=marker, include=inc))], **opts), lq, lq + 2,
+                         [("d", Data(until=marker, include=inc))], **opts), lq, lq + 1,
                 "S", "data", "marker", "delim", "sbl" if sbl is not None else "nosbl",
                 *(["noaccept"] if (sbl and sbl < len(marker)) else []))
 for rk, rx, inc in [("xplus_inc", b"X+", True), ("xplus_exc", b"X+", False), ("xplus_or_end_inc", b"X+|$", True),
